@@ -3,7 +3,7 @@
 From Coq Require Import List Bool Arith.
 From FrameModel Require Import Num.QcTac Geometry.Rect Stog.CreateStog Stog.StogFacts.
 From FrameModel Require Import Strop.Strop Strop.Spec Strop.StropBase Strop.StropFacts
-     Strop.StropComplete Strop.StropStog Strop.Polygon Strop.PolygonFacts.
+     Strop.StropComplete Strop.StropStog Strop.Polygon Strop.PolygonFacts Strop.PolygonForms Strop.Text.
 Import ListNotations.
 Open Scope nat_scope.
 
@@ -212,6 +212,78 @@ Print Assumptions C15_point_inside_rev.
 Theorem C15_point_inside_shift : forall p l1 l2, point_inside p (l2 ++ l1) = point_inside p (l1 ++ l2).
 Proof. exact point_inside_shift. Qed.
 Print Assumptions C15_point_inside_shift.
+
+(* ====================== every input form of the vertex list (model Strop/PolygonForms.v) ====================== *)
+(* the whole decomposition (grid lines, cell matrix, instances, rectangles) depends only on the SET of
+   vertices and on the parity test; the code performs no normalisation of the list and needs none: *)
+Theorem C15_decomposition_ext : forall vs vs',
+  (forall p, In p vs <-> In p vs') -> (forall p, point_inside p vs = point_inside p vs') ->
+  strop_decomposition_all vs = strop_decomposition_all vs'.
+Proof. exact decomposition_ext. Qed.
+Print Assumptions C15_decomposition_ext.
+
+(* other orientation *)
+Theorem C15_decomposition_rev : forall vs, strop_decomposition_all (rev vs) = strop_decomposition_all vs.
+Proof. exact decomposition_rev. Qed.
+Print Assumptions C15_decomposition_rev.
+
+(* other start vertex *)
+Theorem C15_decomposition_shift : forall l1 l2,
+  strop_decomposition_all (l2 ++ l1) = strop_decomposition_all (l1 ++ l2).
+Proof. exact decomposition_shift. Qed.
+Print Assumptions C15_decomposition_shift.
+
+(* the list closed by repeating its first vertex *)
+Theorem C15_decomposition_closed : forall v0 t,
+  strop_decomposition_all ((v0 :: t) ++ [v0]) = strop_decomposition_all (v0 :: t).
+Proof. exact decomposition_closed. Qed.
+Print Assumptions C15_decomposition_closed.
+
+(* Point objects, array rows (a 2-D array is the list of its rows) or a mixture: only the values count *)
+Theorem C15_forms_irrelevant : forall vs vs' : list Vertex, map as_point vs = map as_point vs' ->
+  decomposition_of_forms vs = decomposition_of_forms vs'.
+Proof. exact forms_irrelevant. Qed.
+Print Assumptions C15_forms_irrelevant.
+
+Theorem C15_forms_orbit : forall l1 l2 : list Vertex,
+  decomposition_of_forms (rev (l1 ++ l2)) = decomposition_of_forms (l1 ++ l2) /\
+  decomposition_of_forms (l2 ++ l1) = decomposition_of_forms (l1 ++ l2).
+Proof. exact decomposition_forms_orbit. Qed.
+Print Assumptions C15_forms_orbit.
+
+Example C15_forms_ex :
+  decomposition_of_forms
+    [VRow (qc 1 1) (qc 5 2); VRow (qc 1 1) (qc 1 1); VRow (qc 2 1) (qc 1 1); VPoint (qc 2 1) 0;
+     VPoint 0 0; VRow 0 (qc 5 2); VRow (qc 1 1) (qc 5 2)] = strop_decomposition_all L_example.
+Proof. exact forms_ex. Qed.
+
+(* ====================== matrices given as text (model Strop/Text.v) ====================== *)
+(* Strop(str_matrix) splits the text at whitespace (str.split()).  Whatever whitespace stands before the
+   first row (lead, possibly none), after each row (seps: one run per row, non-empty except possibly the
+   last), the constructor answers as on the matrix itself - so every theorem about [strop] / [instances]
+   above holds for every accepted spelling.  Rows must be non-empty (an empty row cannot be spelled). *)
+Theorem C15_text_spelling : forall (lead : Text) (M : BoolMatrix) (seps : list Text),
+  blank lead -> Forall (fun row => row <> []) M -> List.length seps = List.length M -> seps_fit seps ->
+  strop_text (spell lead M seps) = strop M.
+Proof. exact strop_text_spelling. Qed.
+Print Assumptions C15_text_spelling.
+
+(* a character other than '0' / '1' in a row, or no row at all: refused (an assertion) *)
+Theorem C15_text_nonbinary : forall s,
+  existsb (existsb (fun c => negb (is_bit c))) (split s) = true -> strop_text s = None.
+Proof. exact strop_text_nonbinary. Qed.
+Print Assumptions C15_text_nonbinary.
+Theorem C15_text_blank : forall s, blank s -> strop_text s = None.
+Proof. exact strop_text_blank. Qed.
+Print Assumptions C15_text_blank.
+
+Example C15_text_ex :
+  let M := [[true; false]; [true; true]; [false; true]] in
+  (spell [9] M [[10]; [32; 32]; [32; 10]] = [9; 49; 48; 10; 49; 49; 32; 32; 48; 49; 32; 10])%N /\
+  strop_text (spell [9%N] M [[10]; [32; 32]; [32; 10]]%N) = strop M /\
+  strop_text (spell [] M [[10]; [10]; [10]]%N) = strop M /\
+  strop_text [49; 50]%N = None /\ strop_text [32; 10]%N = None /\ strop_text [49; 32; 49; 49]%N = None.
+Proof. exact spelling_ex. Qed.
 
 (* worked examples: hypotheses of the implications above are satisfiable *)
 Example C15_strop_to_stog_ex :
